@@ -217,6 +217,12 @@ fn gen_taxa(rng: &mut Rng, n: usize) -> Vec<String> {
             *x = format!("sp|{}:{}(x)", i, x);
         }
     }
+    // labels that begin and / or end with a double quote (a verbatim quoted Newick label is such a name): no white space, so legal
+    if rng.chance(1, 7) {
+        for (i, x) in v.iter_mut().enumerate() {
+            *x = match (i + rng.below(4)) % 4 { 0 => format!("\"{x}:b\""), 1 => format!("\"{x}"), 2 => format!("{x}\""), _ => format!("'{x}'") };
+        }
+    }
     // labels holding a comma (no white space, so legal) and labels longer than the ten columns of the classic layout whose tail
     // reads as a number
     if rng.chance(1, 6) {
